@@ -282,6 +282,7 @@ impl<'a> World<'a> {
                 let covered = c.panics
                     || (c.iter && (what.starts_with("iter") || what == "size_hint"))
                     || (c.stats && what == "stats")
+                    || (c.typed && what == "key-conversion")
                     || (self.in_reopen && c.reopen_must_succeed);
                 if covered {
                     Err(viol("panic", format!("{}:{}", loc.split(':').next().unwrap_or("?"), normalise(&msg)), self.step_no, detail))
@@ -808,6 +809,15 @@ impl<'a> World<'a> {
                 Ok(())
             }
             Step::ForeignOpen { m, as_kt, expect_refused, swapped_from } => self.foreign_open(*m as usize, *as_kt, *expect_refused, *swapped_from),
+            Step::Convert { h, k } => with_h!(h, |_m, hd| {
+                if let Some((bv, br, same)) = self.call("key-conversion", |_| hd.roundtrip(k))? {
+                    if self.ep.checks.typed && (bv != *k || br != *k || !same) {
+                        return Err(viol("typed", "roundtrip".into(), self.step_no, format!("integer key {} converts to a key and back as {} (by value) / {} (by reference); by-value and by-reference keys equal: {same}", k.short(), bv.short(), br.short())));
+                    }
+                    self.stats.probe("typed-roundtrip");
+                }
+                Ok(())
+            }),
             Step::Nop => Ok(()),
         }
     }
